@@ -11,7 +11,7 @@ import c04
 
 ID = "C01"
 WANT_TOKS = True
-REQUIRES = ["Agree", "C01Spec"]
+REQUIRES = ["Agree", "C01Spec", "C07Premise"]
 THEOREM_REQUIRES = ["C01"]
 THEOREMS = ["C01_holds_partial", "C01_holds_structure", "C01_holds"]
 PROOF_FILES = ["Proofs/C01Proof.v", "Proofs/C06Named.v", "Proofs/C07Comp.v", "Proofs/C01More.v", "Proofs/SortDedup.v", "Proofs/C01Full.v", "Properties/C01.v"]
@@ -122,7 +122,7 @@ def run_cases(plain, cases_, workdir, tag):
 KF_PREDS = (
     'existsb is_keyword (out_idents o)',
     'negb (str_nodup (type_names o)) || negb (str_nodup (value_names o)) || negb (str_nodup (flat_map (fun c => [cp_wg_const c; cp_fn c]) (o_compute o)))',
-    'negb (forallb (fun v => existsb (String.eqb (vs_name v)) (map s_name (o_structs o))) (o_vstructs o))',
+    'kf_vertex_struct_is_result IR',        # decided on the shader (the cause), not on the output
     'negb (forallb (fun v => str_nodup (ve_params v ++ (if ve_ov_param v then ["overrides"%string] else []))) (o_ventries o))',
     'negb (forallb struct_bounds_ok (o_structs o))',
     'existsb (fun n => existsb (String.eqb n) prelude_names) (map s_name (o_structs o))',
@@ -150,7 +150,10 @@ def _model(c, r, ir):
 
 
 def verdict_expr(c, r, ir, real):
-    kfs = "; ".join("on_out %s (fun o => %s)" % (real, p) for p in KF_PREDS)
+    # the known-finding classes are decided on the MODEL's output (what the unchanged generator emits for this shader:
+    # the cause), not on the returned text (the symptom): a module that fails to compile for a reason the model does
+    # not predict is a violation even if it looks like a listed class
+    kfs = "; ".join("on_out %s (fun o => %s)" % (_model(c, r, ir), p.replace("IR", ir)) for p in KF_PREDS)
     tk = (" && tokens_agree %s toks_%d" % (_model(c, r, ir), c["id"])) if c.get("want_toks") else ""
     return "[wf %s && wf_member_names %s && wf_override_names %s; agree_res out_eqb %s %s%s; %s; %s]" % (
         ir, ir, ir, _model(c, r, ir), real, tk, "true" if _compiles(c, r) else "false", kfs)
@@ -165,7 +168,7 @@ def verdict_expr_noout(c, r, ir):
     mo = _model(c, r, ir)
     tk = (" && tokens_agree %s toks_%d" % (mo, c["id"])) if c.get("want_toks") else ""
     a = ("ir_has_keyword %s%s" % (ir, tk)) if not_rust else "false"
-    kfs = ["on_out %s (fun o => %s)" % (mo, p) for p in KF_PREDS]
+    kfs = ["on_out %s (fun o => %s)" % (mo, p.replace("IR", ir)) for p in KF_PREDS]
     kfs[0] = "(%s || ir_has_keyword %s)" % (kfs[0], ir)
     return "[wf %s; %s; %s; %s]" % (ir, a, "true" if _compiles(c, r) else "false", "; ".join(kfs))
 
